@@ -1268,8 +1268,15 @@ fn c01_batches(tier: Tier) -> Vec<CCase> {
                 if tier == Tier::Thorough || conf != Conf::Sqlite1 {
                     batches.push(vec![vec![av(&first, 8)], vec![av(&first, 9)], vec![av(&first, 10)]]);
                 }
-                for batch in batches {
-                    out.push(CCase { conf, via, prefix: if existing { prefix_existing.clone() } else { vec![] }, cfg: Cfg { snapshot_days: 14, snapshot_versions: 2 }, batch, choices: vec![], probes: vec![], second: vec![] });
+                for (bi, batch) in batches.into_iter().enumerate() {
+                    for probe in [false, true] {
+                        // with probes: at every opportunity a thread is let into Storage::txn while
+                        // another transaction is open (the real lock decides what happens then)
+                        if probe && tier == Tier::Quick && (conf == Conf::Sqlite1 || bi == 2) {
+                            continue;
+                        }
+                        out.push(CCase { conf, via, prefix: if existing { prefix_existing.clone() } else { vec![] }, cfg: Cfg { snapshot_days: 14, snapshot_versions: 2 }, batch: batch.clone(), choices: vec![], probes: if probe { vec![true; 16] } else { vec![] }, second: vec![] });
+                    }
                 }
             }
         }
@@ -1279,12 +1286,18 @@ fn c01_batches(tier: Tier) -> Vec<CCase> {
 
 /// Sub-run of the C01 check: all schedules of overlapping AddVersion requests.
 pub fn c01_overlap_subrun(rep: &mut Report, tier: Tier) {
-    let r = engine::replay_dir::<CCase, _>("C01", "overlap", c01_all_schedules);
+    overlap_subrun("C01", rep, tier)
+}
+
+/// The same batches and the same oracle serve C07: every acknowledged version is served, as
+/// acknowledged, from its parent afterwards - none altered, replaced or dropped.
+pub fn overlap_subrun(id: &'static str, rep: &mut Report, tier: Tier) {
+    let r = engine::replay_dir::<CCase, _>(id, "overlap", c01_all_schedules);
     rep.absorb("replay-tier-overlap", r);
     if rep.failed() {
         return;
     }
-    let r = engine::enumerate("C01", "overlap", c01_batches(tier), c01_all_schedules);
+    let r = engine::enumerate(id, "overlap", c01_batches(tier), c01_all_schedules);
     rep.absorb("overlapping-add-version-all-schedules", r);
 }
 
